@@ -189,8 +189,10 @@ func derLengthMutant(rng *rand.Rand, blob []byte) ([]byte, string) {
 func runC13(c *Ctx) {
 	rng := c.Rng
 	cert := simpleCert(rsaKey(2048, 0), "image signer 0", 300)
+	// the verifying certificate: the default signer's, or the one of the seed the input derives from
+	vcert := cert
 	eval := func(entry string, in []byte, class string) {
-		o := c.Impl("c13", entry, hx(in), hx(cert.Raw))
+		o := c.Impl("c13", entry, hx(in), hx(vcert.Raw))
 		cls := o.Class
 		if cls == "ret" && (len(o.Fields) == 0 || o.Fields[0] != "done") {
 			cls = "exit"
@@ -256,6 +258,12 @@ func runC13(c *Ctx) {
 			m, class = x[1].([]byte), x[0].(string)
 		}
 		entry := pick(rng, []string{"authenticode.ParseAuthenticode+Verify", "pkcs7.ParsePKCS7+Verify"})
+		// three times out of four with the certificate that signed the seed, so that the signer entry is really checked
+		vcert = cert
+		if s.cert != nil && rng.Intn(4) != 0 {
+			vcert = s.cert
+			class += "/signer-cert"
+		}
 		eval(entry, m, class)
 		if rng.Intn(3) == 0 {
 			// inside a WIN_CERTIFICATE / an authentication descriptor
